@@ -18,6 +18,8 @@ import (
 	"github.com/onosproject/onos-lib-go/pkg/controller"
 	"github.com/onosproject/onos-lib-go/pkg/errors"
 	"github.com/openconfig/gnmi/proto/gnmi"
+	"google.golang.org/grpc/codes"
+	"google.golang.org/grpc/status"
 )
 
 // ---- device of target t1: contents over the leaves of the C03 universe
@@ -26,6 +28,7 @@ var (
 	c04Dev    [cfgstore.VLeaves]bool
 	c04DevVal [cfgstore.VLeaves]string
 	c04Sets   int
+	c04Refuse bool // the device refuses every Set (InvalidArgument)
 )
 
 type c04Conn struct{ sb.Conn }
@@ -35,6 +38,9 @@ func (c *c04Conn) ID() sb.ConnID { return "conn-1" }
 // gNMI semantics of the device: deletes first (node and everything beneath it, at element boundaries), then updates
 func (c *c04Conn) Set(ctx context.Context, r *gnmi.SetRequest) (*gnmi.SetResponse, error) {
 	c04Sets++
+	if c04Refuse {
+		return nil, errors.FromGRPC(status.Error(codes.InvalidArgument, "refused by the device"))
+	}
 	for _, p := range r.Delete {
 		for i := 0; i < cfgstore.VNP; i++ {
 			if p != nil && verifSamePath(p.Elem, c03Elems(i)) {
@@ -100,14 +106,26 @@ func VerifC04History() {
 	vStates[0] = int32(configapi.TransactionStatus_APPLIED)
 	h := verifrt.Param("sets")
 	pr := proposalctl.NewReconcilerForVerif(&c04Topo{}, &c04Conns{}, &c03PropStore{}, store, &c03Registry{})
-	for s := 1; s <= h; s++ {
-		op := verifrt.Fork("op"+"0123456789"[s:s+1], cfgstore.VNP+cfgstore.VLeaves)
+	for s := 1; s <= h+1; s++ {
+		var op int
+		val := "rr"
+		if s <= h {
+			op = verifrt.Fork("op"+"0123456789"[s:s+1], cfgstore.VNP+cfgstore.VLeaves)
+			val = verifrt.NondetStringN("val", 2, "v12")
+		} else {
+			// optionally one more Set (update of leaf 4 to a value nothing else writes) that the device REFUSES: it is
+			// committed, its apply fails, and it must never reach the device, not even through the re-push
+			if !verifrt.NondetBool("trailing-refused-set") {
+				break
+			}
+			op = cfgstore.VNP + 4
+			c04Refuse = true
+		}
 		node, del := op, true
 		if op >= cfgstore.VNP {
 			node, del = op-cfgstore.VNP, false
 		}
 		req := &gnmi.SetRequest{Prefix: &gnmi.Path{Target: "t1"}}
-		val := verifrt.NondetStringN("val", 2, "v12")
 		if del {
 			req.Delete = []*gnmi.Path{{Elem: c03Elems(node)}}
 		} else {
@@ -127,12 +145,19 @@ func VerifC04History() {
 		c03Prop = &configapi.Proposal{ID: proposalstore.NewID("t1", configapi.Index(s)), TargetID: "t1", TransactionIndex: configapi.Index(s),
 			Details: &configapi.Proposal_Change{Change: &configapi.ChangeProposal{Values: stamped}}}
 		c03Prop.TargetType, c03Prop.TargetVersion = "ty", "1"
+		c03Initialize(pr)
 		c03Prop.Status.PrevIndex = configapi.Index(s - 1)
 		c03Prop.Status.Phases.Commit = &configapi.ProposalCommitPhase{}
 		_, rerr := pr.Reconcile(controller.NewID(c03Prop.ID))
 		verifrt.Assert(rerr == nil && c03Prop.Status.Phases.Commit.State == configapi.ProposalCommitPhase_COMMITTED, "commit-completes")
 		c03Prop.Status.Phases.Apply = &configapi.ProposalApplyPhase{}
 		_, rerr = pr.Reconcile(controller.NewID(c03Prop.ID))
+		if c04Refuse {
+			verifrt.Assert(rerr == nil && c03Prop.Status.Phases.Apply.State == configapi.ProposalApplyPhase_FAILED, "refused-apply-fails")
+			c04Refuse = false
+			verifrt.Cover("refused-set")
+			break // the stored configuration restricted to the transactions whose apply did not fail: refLive unchanged
+		}
 		verifrt.Assert(rerr == nil && c03Prop.Status.Phases.Apply.State == configapi.ProposalApplyPhase_APPLIED, "apply-completes")
 		for j := 0; j < cfgstore.VLeaves; j++ {
 			if del && cfgstore.VCovers(node, j) {
